@@ -46,6 +46,14 @@ def gen_cases(tr, sd):
     cases = []
     for (kind, text), node in zip(FIXED, fixed_nodes()):
         cases.append(dict(kind=kind, text=text, node=node, origin="fixed"))
+    for lit in ["v1.0", "a|b", "x+y", "a.b*", "q?", "c[d", "e(f", "^g$"]:
+        node = rxref.CaseI(lit)
+        node.flag_string = True
+        cases.append(dict(kind="lark", text="start: T\nT: %s\n" % rxref.to_lark(node), node=node, origin="fixed-flagged-string"))
+        node2 = rxref.Cat([rxref.Lit("k"), rxref.CaseI(lit)])
+        node2.lark = True
+        node2.xs[1].flag_string = True
+        cases.append(dict(kind="lark", text="start: T\nT: %s\n" % rxref.to_lark(node2), node=node2, origin="fixed-flagged-string"))
     for src in ["abbbc", "baaab", "abcabcab", "aabaab", "banana", "the cat sat on the mat"]:
         mode = "words" if " " in src else "chars"
         chunks = rxref._split_words(src) if mode == "words" else list(src)
